@@ -163,7 +163,11 @@ func TestVerifC19Exporter(t *testing.T) {
 			set := exportertest.NewNopSettings(exportertest.NopType)
 			set.TelemetrySettings = tel.NewTelemetrySettings()
 			gauge := ""
+			direct := !cs.cfg.queue && cs.cfg.batch == 0 // no queue: no gauges, no enqueue-failed counter
 			run := c03Exec(cs, set, func(run *c03Run) {
+				if direct {
+					return
+				}
 				synctest.Wait()
 				size, ok1 := c19Metric(tel, "otelcol_exporter_queue_size")
 				capv, ok2 := c19Metric(tel, "otelcol_exporter_queue_capacity")
